@@ -358,7 +358,12 @@ class Run:
             "samples": self.samples[:8] or ["(no correspondence cases in this run)"],
         }
         if self.exhaustive is not None:
-            cov["exhaustive"] = self.exhaustive
+            # the schema wants a boolean; a description of the finite space that was enumerated completely goes beside it
+            if isinstance(self.exhaustive, bool):
+                cov["exhaustive"] = self.exhaustive
+            else:
+                cov["exhaustive"] = True
+                cov["exhaustive_scope"] = self.exhaustive
         cov.update(self.extra)
         ev = {"property_id": self.id, "tier": self.tier, "seed": self.seed, "level": "proof", "coverage": cov,
               "assumptions": self.assumptions, "wall_s": round(time.time() - self.t0, 2), "violations": nviol}
